@@ -94,6 +94,12 @@ def alphabet(U):
                 ops.append(('list=', c, L))
                 ops.append(('list+=', c, L))
                 ops.append(('//', c, L))
+            for L in seqs:
+                if len(L) == 2:
+                    # one-shot iterators as arguments (generators are legal wherever a sequence of tasks / ids is)
+                    ops.append(('list=iter', c, L))
+            for ids in _reorder_ids(U.ids)[:8]:
+                ops.append(('reorder_iter', c, ids))
             for c2 in conts:
                 # the right-hand side is a live list view of the library (another task's children, the roots, itself)
                 ops.append(('list=view', c, c2))
@@ -152,13 +158,14 @@ def alphabet(U):
                 ops.append((side + '.remove_all_id', x, v))
     if U.alphabet == 'order':
         # ordering operations only (phase 2 of the 4-task ordering universe)
-        keep = {'move_before', 'move_after', 'move_none', 'move_both', 'sort', 'sort_bad', 'reorder', 'insert'}
+        keep = {'move_before', 'move_after', 'move_none', 'move_both', 'sort', 'sort_bad', 'reorder', 'insert', 'reorder_iter'}
         ops = [o for o in ops if o[0] in keep]
     if U.alphabet == 'attach':
         # quick-tier trim for the duplicate-id universe: ordering operations are covered by U3
         drop = {'move_before', 'move_after', 'move_none', 'move_both', 'sort', 'sort_bad', 'reorder', 'list+=', 'list+=view',
                 'pred+=', 'succ+=', 'pred<<1', 'succ<<1', 'pred.remove_all_id', 'succ.remove_all_id'}
-        ops = [o for o in ops if o[0] not in drop and not (o[0] == 'insert' and o[2] not in (0, 1))]
+        ops = [o for o in ops if (o[0] not in drop or (o[0] in ('move_before', 'move_after') and len(o[2]) == 1))
+               and not (o[0] == 'insert' and o[2] not in (0, 1)) and o[0] != 'reorder_iter']
     if U.ctor:
         for x in tasks:
             for y in list(tasks) + [None]:
@@ -189,6 +196,10 @@ def describe(op, U=None):
 
     if f == 'parent':
         return f'{t(op[1])}.parent = {t(op[2])}'
+    if f == 'list=iter':
+        return f'{c(op[1])} = iter({L(op[2])})'
+    if f == 'reorder_iter':
+        return f'{c(op[1])}.reorder(iter({list(op[2])}))'
     if f == 'list=view':
         return f'{c(op[1])} = {c(op[2])}'
     if f == 'list+=view':
@@ -286,6 +297,18 @@ def apply(U, op, facade=None):
     r = U._r
     if f == 'parent':
         T[op[1]].parent = None if op[2] is None else T[op[2]]
+        return None
+    if f == 'list=iter':
+        o = _owner_obj(U, op[1])
+        it = (T[i] for i in op[2])
+        if op[1][0] == 'T':
+            o.children = it
+        else:
+            o.roots = it
+        return None
+    if f == 'reorder_iter':
+        fac = facade if facade is not None else _facade(U, op[1])
+        fac.reorder(i for i in op[2])
         return None
     if f in ('list=view', 'list+=view'):
         o = _owner_obj(U, op[1])
@@ -569,6 +592,10 @@ def effect(U, a: A, op):
     f = op[0]
     if f == 'parent':
         return _parent_effect(a, op[1], op[2]), None
+    if f == 'list=iter':
+        return _assign(a, op[1], op[2]), None
+    if f == 'reorder_iter':
+        return effect(U, a, ('reorder', op[1], op[2]))
     if f == 'list=view':
         return _assign(a, op[1], list(_lst(a, op[2]))), None
     if f == 'list+=view':
@@ -774,7 +801,7 @@ def argrel(U, a: A, op):
         flags.add('rhs-is-own-view' if op[1] == op[2] else 'rhs-is-view')
     elif f in ('pred=view', 'succ=view'):
         return 'rhs-is-view'
-    elif f in ('list=', 'list+=', '//', 'move_before', 'move_after'):
+    elif f in ('list=', 'list+=', '//', 'move_before', 'move_after', 'list=iter'):
         cont = op[1]
         args = list(op[2])
     elif f in ('//1', 'append', 'remove', 'move_none', 'list<<', 'list>>'):
